@@ -96,6 +96,13 @@ func verifyUnit(p *Program, u *Unit) (res *UnitResult) {
 	if _, ok := st.ghost["tick"]; !ok {
 		// ghost draw counter (only materialised when used)
 	}
+	// tensors handed in by the caller exist before the call (allocations made here get positive birth stamps)
+	for _, v := range r.paramVal {
+		if v.K == KRef && v.Sort == "T" {
+			r.declBirth("T")
+			st.assume(sx("<=", sx("birth_T", v.T), "0"))
+		}
+	}
 	r.entry = st.clone()
 	// axioms of the package
 	envA := &SpecEnv{run: r, st: st, old: r.entry, bound: map[string]Val{}}
